@@ -40,6 +40,8 @@ for d in sorted(os.listdir(os.path.join(V, "seeded"))):
     now = sorted(set(cur.get(d, [])))
     if m.get("no_longer_breaks"):
         now = ["harmless on the current tree: " + m["no_longer_breaks"]]
+    if m.get("not_reported") and (not now or now == ["MISSED"]):
+        now = ["NOT REPORTED (" + m["not_reported"][:120] + " …)"]
     rows.append((d, m.get("breaks_property"), rnd, (m.get("summary") or "").replace("|", "/").replace("\n", " ")[:160],
                  first_s, ", ".join(now) if now else "?"))
 
@@ -48,15 +50,15 @@ with open(os.path.join(V, "seeded", "RESULTS.md"), "w") as f:
     f.write("Every change below was confirmed by `tools/verify_seed.sh` (builds; whole suite passes with it; its demonstration fails\n"
             "with it and passes without it) on the /repo commit it was made for, and again after every later `fix:` commit that touched\n"
             "the code it edits (patches re-based or re-created, see `patch_rebased` / `demo_adapted` in each meta.json). *first run* = what the owning property's check reported the first time the change was\n"
-            "applied (rounds 2, 3, 4, 6, 7, 9 and 10: those changes were produced after the checks existed and without knowledge of them).\n"
+            "applied (rounds 2, 3, 4, 6, 7, 9, 10 and 11: those changes were produced after the checks existed and without knowledge of them).\n"
             "*now* = rules of the owning check that report it on the committed checker (`tools/seedrun.sh`).\n\n")
-    for rnd, label in ((2, "Round 2 (independent, after all checks existed)"), (3, "Round 3 (independent, after the round-2 strengthening)"), (4, "Round 4 (independent, after the round-3 strengthening; agents were told the obvious ideas were used and asked for second-order changes)"), (6, "Round 6 (independent, after the white-box hardening round W5)"), (7, "Round 7 (independent)"), (9, "Round 9 (independent, on the tree repaired by the two audit rounds)"), (10, "Round 10 (independent, on the tree repaired up to D48, after the refactoring rounds F10/F11)")):
+    for rnd, label in ((2, "Round 2 (independent, after all checks existed)"), (3, "Round 3 (independent, after the round-2 strengthening)"), (4, "Round 4 (independent, after the round-3 strengthening; agents were told the obvious ideas were used and asked for second-order changes)"), (6, "Round 6 (independent, after the white-box hardening round W5)"), (7, "Round 7 (independent)"), (9, "Round 9 (independent, on the tree repaired by the two audit rounds)"), (10, "Round 10 (independent, on the tree repaired up to D48, after the refactoring rounds F10/F11)"), (11, "Round 11 (independent, after the third shape-tolerance pass: does the tolerance cost detection?)")):
         rr = [r for r in rows if r[2] == rnd]
         if not rr:
             continue
         miss = [r for r in rr if r[4] == "MISSED"]
         f.write(f"{label}: {len(rr)} changes, {len(rr)-len(miss)} reported at first run, {len(miss)} missed at first run; "
-                f"after strengthening, {sum(1 for r in rr if r[5] not in ('?', 'MISSED') and not r[5].startswith('harmless'))} of {len(rr)} are reported, {sum(1 for r in rr if r[5].startswith('harmless'))} became harmless after a later fix in /repo.\n\n")
+                f"after strengthening, {sum(1 for r in rr if r[5] not in ('?', 'MISSED') and not r[5].startswith('harmless') and not r[5].startswith('NOT REPORTED'))} of {len(rr)} are reported, {sum(1 for r in rr if r[5].startswith('harmless'))} became harmless after a later fix in /repo.\n\n")
     w5 = [r for r in rows if r[2] == "5w"]
     if w5:
         f.write(f"Round W5 (white-box red team; not a measurement): {len(w5)} changes the checker did not report when they were made; "
